@@ -60,6 +60,15 @@ int g_sampled;
 void ldb_record_read_sample(struct ldb_s *db, const ldb_slice_t *key) { (void)db; (void)key; g_sampled++; }
 uint32_t ldb_rand_uniform(ldb_rand_t *rnd, uint32_t n) { (void)rnd; return n - 1; }
 
+/* byte equality (src/util/slice.c): not called by db_iter.c today; present so that a change that compares keys by bytes
+ * instead of through the comparator reaches the semantic obligations */
+int ldb_slice_equal(const ldb_slice_t *x, const ldb_slice_t *y) {
+  size_t i;
+  if (x->size != y->size) return 0;
+  for (i = 0; i < x->size; i++) if (x->data[i] != y->data[i]) return 0;
+  return 1;
+}
+
 #include "db_iter.c"
 
 /* ------------------------------------------------- specification (ghost) */
